@@ -1,10 +1,33 @@
 #!/bin/sh
 # Builds the harness test binaries offline from files on disk only (warms the Go build cache).
+# Only the packages of registered checks (cfg/_registered.json) must build; the build of a check's
+# binary is repeated by ./check on every run anyway, so this step is an optimisation plus an early
+# failure signal.
 set -e
 cd "$(dirname "$0")"
 . ./env.sh
+mkdir -p .build
 cd harness
-mkdir -p ../.build
-"$GO" build -tags verif ./internal/... 
-ls -d c[0-9]*/ | tr -d / | xargs -P 4 -I{} "$GO" test -c -tags verif -vet=off -o ../.build/{}.test ./{}
+"$GO" build -tags verif ./internal/...
+pkgs=$(python3 - <<'EOF'
+import json, os
+reg = json.load(open("../cfg/_registered.json"))
+out = []
+for pid in reg:
+    c = json.load(open(f"../cfg/{pid}.json"))
+    out.append(c.get("pkg", pid.lower()) + (":race" if c.get("race") else ""))
+print(" ".join(sorted(set(out))))
+EOF
+)
+fail=0
+for p in $pkgs; do
+  name=${p%%:*}
+  if [ "${p#*:}" = "race" ]; then
+    echo "$name -race"
+  else
+    echo "$name"
+  fi
+done | xargs -P 4 -L 1 sh -c '
+  if [ "$2" = "-race" ]; then "$0" test -c -tags verif -vet=off -race -o ../.build/$1.race.test ./$1; else "$0" test -c -tags verif -vet=off -o ../.build/$1.test ./$1; fi' "$GO" || fail=1
+[ $fail -eq 0 ] || { echo "setup: a registered package failed to build"; exit 1; }
 echo setup ok
